@@ -76,7 +76,9 @@ Definition mk (f : fname) (item new : Z) (p : predfn) (s1 s2 : seqin) (st en : o
   (t : testarg) (cn : countarg) (fe : bool) : call :=
   mkCall f item new p s1 s2 st en false None None k t cn fe BAdd None 1 false TrT.
 
-(* (find 1 '(0 1 2) :test-not 'eql) => type-error, the language says 0 *)
+(* (find 1 '(0 1 2) :test-not 'eql) => 0 (repaired: was a type-error) *)
+(* (member 1 '(1 2) :test-not 'eql) => type-error, the language says (2): member has its own keyword loop *)
+Definition w_member_test_not := mk FMember 1 0 P0 (SList [1;2]) SNil None None None (TTestNot TEql) CAbsent false.
 Definition w_test_not := mk FFind 1 0 P0 (SList [0;1;2]) SNil None None None (TTestNot TEql) CAbsent false.
 (* (substitute 9 1 '(1 2) :test-not 'eql) => (9 2): the keyword is ignored *)
 Definition w_subst_test_not := mk FSubstitute 1 9 P0 (SList [1;2]) SNil None None None (TTestNot TEql) CAbsent false.
@@ -140,7 +142,7 @@ Definition w_remove_if_not := mk FRemoveIfNot 0 0 P0 (SList [0;1;2]) SNil None N
 Definition w_find_if_not := mk FFindIfNot 0 0 P0 (SVec [0;1;2]) SNil None None None TDefault CAbsent false.
 
 Definition refutation_witnesses : list call :=
-  [w_remove_if_not; w_find_if_not; w_test_not; w_subst_test_not; w_setdiff_test_not;
+  [w_remove_if_not; w_find_if_not; w_member_test_not; w_subst_test_not; w_setdiff_test_not;
    w_mismatch_from_end;
    w_fill_end; w_fill_start;
    w_reduce_empty; w_reduce_start; w_dups_from_end].
@@ -149,10 +151,10 @@ Lemma all_refuted : forallb refutes refutation_witnesses = true.
 Proof. vm_compute. reflexivity. Qed.
 
 Lemma refuted_values :
-  map m_call [w_test_not; w_mismatch_from_end; w_reduce_empty] =
+  map m_call [w_member_test_not; w_mismatch_from_end; w_reduce_empty] =
   [Some (RErr EType); Some (RInt 2); Some RNil] /\
-  map s_call [w_test_not; w_mismatch_from_end; w_reduce_empty] =
-  [Some (RElt 0); Some (RInt 3); Some (RElt 0)].
+  map s_call [w_member_test_not; w_mismatch_from_end; w_reduce_empty] =
+  [Some (RSeq [2]); Some (RInt 3); Some (RElt 0)].
 Proof. vm_compute. split; reflexivity. Qed.
 
 (* ---- repaired defects: the witnesses of the findings repaired in slip (repo_fixes/C14-n.patch) are now inside
@@ -164,7 +166,7 @@ Definition repaired_witnesses : list (call * res) :=
     (w_mismatch_start, RInt 2); (w_replace_end, RSeq [9;9;3]);
     (w_reduce_start_init, RElt 7); (w_some_value, RElt 2); (w_assoc_order, RSeq [2;0]);
     (w_merge_tie, RSeq [-1;1]); (w_subst_count, RSeq [0;9;0;1]); (w_subst_count0, RSeq [1;1]);
-    (w_subst_count_neg, RSeq [1;1]); (w_dups_ne, RSeq [1]) ].
+    (w_subst_count_neg, RSeq [1;1]); (w_dups_ne, RSeq [1]); (w_test_not, RElt 0) ].
 Definition repaired_ok (cr : call * res) : bool :=
   in_domain (fst cr) &&
   match m_call (fst cr), s_call (fst cr) with
@@ -260,7 +262,7 @@ Proof. intros lt k W xs. split; [exact (isort_stable lt k W xs)|exact (stable_un
 Lemma reverse_loops : forall l, m_reverse_list l = rev l /\ go_reverse l = rev l.
 Proof. intros l. split; [exact (m_reverse_is_rev l)|exact (go_reverse_is_rev l)]. Qed.
 
-Lemma test_not_refuted : refutes w_test_not = true /\ refutes w_subst_test_not = true /\ refutes w_setdiff_test_not = true.
+Lemma test_not_refuted : refutes w_member_test_not = true /\ refutes w_subst_test_not = true /\ refutes w_setdiff_test_not = true.
 Proof. vm_compute. repeat split; reflexivity. Qed.
 Lemma if_not_missing_refuted : refutes w_remove_if_not = true /\ refutes w_find_if_not = true /\
   m_call w_remove_if_not = Some (RErr EUndefined) /\ s_call w_remove_if_not = Some (RSeq [0]) /\ s_call w_find_if_not = Some (RElt 1).
